@@ -503,6 +503,14 @@ class Guard:
             return r
         if kk == "Lit":
             return self.value_region(path, "==", Fraction(p["v"]), p)
+        if kk == "Path" and "def" in p:
+            # a unit variant / constant of another, non-numeric parameter (`Algorithm::Svd => ..`): the arm is taken in that
+            # mode whatever f is
+            kind = str((self.c.dfn(p["def"]) or {}).get("kind", ""))
+            if (kind.startswith("Ctor") or kind in ("Const", "AssocConst", "Variant")) and path != self.f:
+                if self.f.startswith(path + "."):
+                    return Region.empty(self.integer)      # f lives under a payload-carrying variant of this field
+                return None
         raise Unclassified("unrecognised pattern kind %s" % kk)
 
     def bind_all(self, p, path):
@@ -795,7 +803,12 @@ class Guard:
                     if py is not None and "Option<" in ty and not any(x in ty for x in ("Option<f32>", "Option<f64>", "Option<usize>", "Option<u64>", "Option<F>", "Option<i32>", "Option<u32>")):
                         self.opaque.add("state:" + py)
             return True, inp
-        self.err = self.err.union(sub.err)
+        # an input that the helper rejects in one mode of another parameter and accepts in another mode (both branches of a
+        # mode test are run with the same inputs) is not rejected for every configuration of the others: the documented range
+        # of a parameter holds whatever the other parameters are, so only what no mode accepts counts as rejected
+        rejected = sub.err.minus(sub.ok)
+        self.err = self.err.union(rejected)
+        sub.err = rejected
         self.relations |= sub.relations
         self.opaque |= sub.opaque
         self.lossy_tests |= sub.lossy_tests
